@@ -12,6 +12,8 @@ import FpgoVerif.Model.C13Ask
       (`ask.timeout.fired`).  Ops:
         `a<i>`  asker i starts its call            `r`     release the actor into the `select` of `Reply`
         `w<i>`  wait until asker i's timer fired   `u<i>`  release asker i: `close(done)`, return the timeout
+        `d<i>`  asker i (kind `D`: AskChannel whose caller only holds the channel) starts to read — the harness waits
+                `late=<ms>` (head parameter) before it lets the reader go: the value must arrive however late
       Observation after every op (after everything that can move has moved):
         `<asker states>/<actor state>`  askers: `-` not started, `s` inside `target.Send` (request not yet in the mailbox), `w` waiting for
         the reply (possibly parked after its timer
@@ -86,6 +88,7 @@ def doOp (x : Sched) (tok : String) : Sched :=
       | _ => x
     | 'w' => if x.short i then (x.try (.fire i)).getD x else x
     | 'u' => (x.try (.giveUp i)).getD x
+    | 'd' => (x.try (.read i)).getD x
     | _ => x
   settle 4096 x
 
@@ -93,7 +96,7 @@ def askerChar (a : Asker) : Char :=
   match a.pc with
   | .idle => '-'
   | .sending => 's'
-  | .waiting | .got _ | .fired => 'w'
+  | .waiting | .got _ | .fired | .holding => 'w'
   | .retV _ => 'V'
   | .retT => 'T'
 
@@ -135,6 +138,7 @@ def parseSpec (item : String) : Kind × Nat × Bool :=
   match k with
   | 'O' => (.once, rc, false)
   | 'C' => (.channel, rc, false)
+  | 'D' => (.channelLate, rc, false)
   | 'S' | 'Z' | 'N' | 'Y' => (.timeout, rc, true)
   | _ => (.timeout, rc, false)
 
@@ -205,8 +209,13 @@ def judgeAsk (line impl : String) : String :=
     | [as, act] =>
       -- a reply that the actor has delivered (Reply returned) must have reached its asker, unless that asker is a
       -- short-timeout one (which may be parked between its timer and its return)
+      let ops := splitOps (headBody line).2
       let lost := srv.filter fun k =>
-        as.toList.getD k '-' == 'w' && (match items[k]? with | some (_, _, true) => false | _ => true)
+        as.toList.getD k '-' == 'w' &&
+          (match items[k]? with
+           | some (_, _, true) => false
+           | some (.channelLate, _, _) => ops.contains s!"d{k}"
+           | _ => true)
       if !lost.isEmpty then s!"violation Reply returned for request {lost.headD 0} but its asker never received the value"
       else if act.startsWith "b" then
         let k := ((act.drop 1).toString.toNat?).getD 0
